@@ -70,32 +70,50 @@ theorem C08_source_shape :
     Gen.Store.rollbackFilterStoreFirst = true ∧
     0 < Gen.Store.blockHeaderSize ∧ 0 < Gen.Store.regularFilterHeaderSize := by decide
 
-/-- The very first start (empty data directory), killed right before its n-th
-index transaction, must also restart cleanly.  Full statement — FALSE of the
-code (recorded finding `crash-during-first-init`): once a store's genesis entry
-is in its flat file but not yet in the index, the constructor fails for ever
-("the key … does not exist in bucket header-index"). -/
-def C08_first_init : Prop := ∀ n, ∃ d', reopen (initCrash n) = some d' ∧ Rep d' Log.init
+/-- Every on-disk state the very first start can leave behind when it is killed
+— before, within (torn write of `jb`/`jf` bytes) or after each of its file
+writes and index transactions, or again while a later start is repeating an
+interrupted initialisation. -/
+def FirstInit (d : Durable) : Prop :=
+  (∃ jb, d = { bf := { ents := [], junk := jb }, ff := { ents := [] }, db := {} }) ∨
+  d = { bf := { ents := [0] }, ff := { ents := [] }, db := {} } ∨
+  (∃ jf, d = { bf := { ents := [0] }, ff := { ents := [], junk := jf }, db := { idx := [(0, 0)], btip := some 0 } }) ∨
+  d = { bf := { ents := [0] }, ff := { ents := [0] }, db := { idx := [(0, 0)], btip := some 0 } } ∨
+  d = init
 
-theorem C08_first_init_counterexample : reopen (initCrash 2) = none ∧ reopen (initCrash 4) = none := by
-  decide
+/-- **The very first start is restartable** (after the repair
+`resetInterruptedInit`; before it the states with a genesis entry in a flat
+file but no tip in the index made the constructors fail for ever — recorded as
+`crash-during-first-init`, now `fixed:`).  From every such state the next start
+succeeds and yields exactly the freshly initialised stores. -/
+theorem C08_first_init (d : Durable) (h : FirstInit d) : reopen d = some init ∧ Rep init Log.init := by
+  refine ⟨?_, rep_init⟩
+  rcases h with ⟨jb, rfl⟩ | rfl | ⟨jf, rfl⟩ | rfl | rfl
+  · rfl
+  · decide
+  · rfl
+  · decide
+  · decide
 
-theorem C08_first_init_false : ¬ C08_first_init := by
-  intro h
-  obtain ⟨d', h1, _⟩ := h 2
-  have := C08_first_init_counterexample.1
-  rw [this] at h1
-  cases h1
+/-- the crash points the driver replays against the real constructors -/
+theorem C08_first_init_points (n : Nat) : FirstInit (initCrash n) := by
+  match n with
+  | 0 => exact Or.inl ⟨0, rfl⟩
+  | 1 => exact Or.inl ⟨0, rfl⟩
+  | 2 => exact Or.inr (Or.inl rfl)
+  | 3 => exact Or.inr (Or.inr (Or.inl ⟨0, rfl⟩))
+  | 4 => exact Or.inr (Or.inr (Or.inr (Or.inl rfl)))
+  | n + 5 => exact Or.inr (Or.inr (Or.inr (Or.inr rfl)))
 
-/-- every other point of the first start recovers to the freshly initialised stores -/
-theorem C08_first_init_partial (n : Nat) (h2 : n ≠ 2) (h4 : n ≠ 4) :
-    ∃ d', reopen (initCrash n) = some d' ∧ Rep d' Log.init := by
-  refine ⟨init, ?_, rep_init⟩
-  match n, h2, h4 with
-  | 0, _, _ => decide
-  | 1, _, _ => decide
-  | 3, _, _ => decide
-  | n + 5, _, _ => simp only [initCrash]; decide
+/-- the repair does not touch a directory that merely lost its database: with
+more than the initial entry in a flat file and no tip in the index the
+constructor still refuses to start (nothing is truncated). -/
+theorem C08_first_init_keeps_data (ids : List Nat) (x y : Nat) (ff : FileSt) :
+    openStore .B { bf := { ents := x :: y :: ids }, ff := ff, db := {} } = none := by
+  simp [openStore, Durable.file, Durable.setFile, Db.hasTip, btipHeight?]
+  cases h : (y :: ids).getLast? with
+  | none => exact absurd (List.getLast?_eq_none_iff.mp h) (by simp)
+  | some _ => rfl
 
 /-! Non-vacuity: concrete states and crash points. -/
 example : Rep init Log.init := rep_init
